@@ -16,6 +16,17 @@ from .man import Man
 from .cov import Cov
 
 
+def _unpickle(cls, coord, data):
+    """Rebuild a StateVector on top of a buffer, as ``StateVector.__new__`` does.
+
+    The class relies on ``self.base`` (in-place form and frame changes, copy),
+    which numpy's own unpickling leaves empty.
+    """
+    obj = np.ndarray.__new__(cls, (6,), buffer=coord, dtype=float)
+    object.__setattr__(obj, "_data", data)
+    return obj
+
+
 class StateVector(np.ndarray):
     """Coordinate representation"""
 
@@ -59,14 +70,7 @@ class StateVector(np.ndarray):
 
         see http://stackoverflow.com/questions/26598109
         """
-        reconstruct, clsinfo, state = super().__reduce__()
-
-        new_state = {
-            "basestate": state,
-            "data": self._data,
-        }
-
-        return reconstruct, clsinfo, new_state
+        return _unpickle, (self.__class__, np.array(self, dtype=float), self._data)
 
     def __setstate__(self, state):
         """For pickling
